@@ -299,6 +299,14 @@ func (node *ListNode) ellipsisAnalysis(values map[string]interface{}) (int, int)
 			ef, er := listNode.ellipsisAnalysis(values)
 			ellipsisToFill += (ellipsisValue + 1) * ef
 			ellipsisRemaining += (ellipsisValue + 1) * er
+			// the callers only ask "any to fill?" and "none, one or several remaining?"; keep
+			// the counters small, as products over the nesting levels they wrapped around
+			if ellipsisToFill > 1 {
+				ellipsisToFill = 1
+			}
+			if ellipsisRemaining > 2 {
+				ellipsisRemaining = 2
+			}
 		}
 	}
 	return ellipsisToFill, ellipsisRemaining
